@@ -22,6 +22,7 @@ def run(ctx):
     gram.g15_kvp_args(ctx, g, P)
     gram.g9_kvp_value(ctx, g, P)
     gram.g16_strings_atomic(ctx, g, P)
+    gram.g17_string_escapes(ctx, g, P)
     gram.scan_alignment(ctx, g, P)
     finder.rule_macro_filter(ctx, facts, "C10-R1")
     finder.rule_filter_before_entry(ctx, facts, "C10-R1")
